@@ -1,4 +1,75 @@
+(* C06 — Relay output follows the last command and the server is told the truth.
+   Property theorems only: each is closed by `exact` of a lemma proved in C06/Proofs.v (which builds on C07). *)
 From Coq Require Import List ZArith Bool.
 Import ListNotations.
 From V Require Import Base.Bytes Gen.RelayConsts C07.Model C07.Proofs C06.Model C06.Proofs.
 Local Open Scope Z_scope.
+
+(* Output follows the command, and the report is the read-back (_supla_esp_channel_set_value, used by the set-value
+   handler and by the countdown finish callback): after driving relay r with v the logical level (pin, inverted for
+   active-low wiring) is (v = 1); the success flag is 1; the value handed to srpc is that read-back level, queued when the
+   out-queue has room. *)
+Theorem C06_output_follows_and_report_truthful : forall c a r v ch s,
+  wf_cfg c -> In r (c_relays c) -> find_gpio (c_relays c) 0 (r_gpio r) = Some (a, r) ->
+  let '(s', ok) := chan_set_value c (r_gpio r) v ch s in
+  level r s' = (v =? 1) /\ ok = 1 /\
+  (reg s = true -> len (queue s) < QUEUE_SIZE -> queue s' = queue s ++ [CVal ch (if level r s' then 1 else 0)]) /\
+  (reg s = false -> queue s' = queue s).
+Proof. exact chan_set_value_thm. Qed.
+Print Assumptions C06_output_follows_and_report_truthful.
+
+(* One result per request: the handler of a set-value request for an existing relay channel (whatever duration, value,
+   running timers, staircase configuration, variant of countdown()) leaves the relay at the requested level and issues
+   exactly one result, with the request's channel and sender id and Success = 1; all its other calls are values and
+   timer states.  Issued = handed to srpc: queued if the 2-entry out-queue has room, otherwise refused (ODrop). *)
+Theorem C06_one_result_per_request : forall e c ch v dur sender a r s,
+  wf_cfg c -> In r (c_relays c) -> find_chan (c_relays c) 0 ch = Some (a, r) -> find_gpio (c_relays c) 0 (r_gpio r) = Some (a, r) ->
+  conn s = true ->
+  let s' := channel_set_value e c ch v dur sender s in
+  level r s' = (v =? 1) /\
+  exists qa add, queue s' = queue s ++ qa /\ outs s' = add ++ outs s /\
+    filter isres (qa ++ new_drops add) = [CRes ch sender 1].
+Proof. exact set_value_thm. Qed.
+Print Assumptions C06_one_result_per_request.
+
+(* Transport: an iterate moves calls queue -> out buffer -> wire without loss, invention or reordering and does not touch
+   the outputs; when the device is idle (queue and buffer empty) the wire has carried exactly the accepted calls. *)
+Theorem C06_fifo : forall s, accepted (iterate6 s) = accepted s /\ gout (iterate6 s) = gout s.
+Proof. exact fifo_thm. Qed.
+Print Assumptions C06_fifo.
+Theorem C06_idle_all_delivered : forall s, queue s = [] -> obuf s = [] -> wired (outs s) = accepted s.
+Proof. exact idle_thm. Qed.
+Print Assumptions C06_idle_all_delivered.
+
+(* The full reporting clauses ("exactly one result ON THE WIRE", "the last reported value equals the real state when
+   idle") are FALSE of the code: the out-queue holds SRPC_QUEUE_SIZE = 2 calls and the return value of srpc_ds_async_* is
+   ignored.  Witnesses (replayed on the real code by corpus/C06/burst3.txt, burst4.txt): *)
+Theorem C06_one_result_refuted :
+  drops (run6 false cd_board [CReg; CSetV 0 1 3000 77; CIter; CIter; CIter]) = [CRes 0 77 1] /\
+  wired (rev (run6 false cd_board [CReg; CSetV 0 1 3000 77; CIter; CIter; CIter])) = [CExt 0 3000 0 77; CVal 0 1].
+Proof. exact burst3_refuted_thm. Qed.
+Print Assumptions C06_one_result_refuted.
+Theorem C06_last_report_refuted :
+  drops (run6 false cd_board [CReg; CSetV 0 1 3000 77; CIter; CIter; CIter; CSetV 0 0 5000 78; CIter; CIter; CIter]) =
+    [CRes 0 77 1; CVal 0 0; CRes 0 78 1].
+Proof. exact burst4_refuted_thm. Qed.
+Print Assumptions C06_last_report_refuted.
+
+(* _except_known: under H_queue_room (no call of the handler was refused) the one result is queued behind what was issued
+   before it; C06_fifo and C06_idle_all_delivered then carry it to the wire unchanged. *)
+Theorem C06_one_result_except_known : forall e c ch v dur sender a r s,
+  wf_cfg c -> In r (c_relays c) -> find_chan (c_relays c) 0 ch = Some (a, r) -> find_gpio (c_relays c) 0 (r_gpio r) = Some (a, r) ->
+  conn s = true ->
+  let s' := channel_set_value e c ch v dur sender s in
+  (forall add, outs s' = add ++ outs s -> new_drops add = []) ->
+  exists qa, queue s' = queue s ++ qa /\ filter isres qa = [CRes ch sender 1].
+Proof. exact set_value_result_queued_thm. Qed.
+Print Assumptions C06_one_result_except_known.
+
+(* the hypotheses are satisfiable, and without the countdown capability the same requests are answered on the wire *)
+Example C06_plain_channel_answered :
+  drops (run6 false cd_board [CReg; CSetV 1 1 3000 77; CIter; CIter; CSetV 1 0 0 78; CIter; CIter]) = [] /\
+  wired (rev (run6 false cd_board [CReg; CSetV 1 1 3000 77; CIter; CIter; CSetV 1 0 0 78; CIter; CIter])) =
+    [CVal 1 1; CRes 1 77 1; CVal 1 0; CRes 1 78 1].
+Proof. exact plain_answered_thm. Qed.
+Print Assumptions C06_plain_channel_answered.
